@@ -1794,6 +1794,28 @@ def no_stale_static_rule(ck, rid, basenames, what):
           ("%d functions in the closure, none keeps data in a static local" % n) if not stale else
           "static local `%s` of %s still holds what an earlier call left in it when it is used at %s" % (stale[0][1]["var"], stale[0][0].name, stale[0][2].loc),
           path=(stale[0][3] if stale else None))
+    # ... and none of them keeps data in a namespace-scope variable or a static data member either (a result cache, a "last value")
+    reach = callgraph_reach(prog, roots)
+    gw = []
+    for fid, (f2, chain) in reach.items():
+        if not ("/pistache/" in f2.file or "/src/" in f2.file) or "/tests/" in f2.file or "/examples/" in f2.file:
+            continue
+        for e in f2.events():
+            g_ = None
+            if e["k"] == "assign":
+                g_ = e["lhs"].get("g")
+            elif e["k"] == "incdec":
+                g_ = (e.get("operand") or {}).get("g")
+            elif e["k"] == "call":
+                rv = e.get("recv") or {}
+                if rv.get("g") and is_stl_mutation(e):
+                    g_ = rv["g"]
+            if g_:
+                gw.append((f2, e, g_, chain))
+    ck.ob(rid, "no-process-wide-state", not gw, (gw[0][1].loc if gw else roots[0].loc), (gw[0][0] if gw else roots[0]),
+          ("%d functions reachable, none writes a namespace-scope variable or static member" % len(reach)) if not gw else
+          "%s writes the process-wide variable %s: what it answers for a text then depends on which texts were handled before" % (gw[0][0].name, gw[0][2]),
+          path=(gw[0][3] if gw else None))
 
 
 # ---------- virtual defaults that call each other ----------
